@@ -989,6 +989,27 @@ impl Parser {
 
         let mut args: Vec<ArgMaybeAnnotated> = vec![];
         if current.kind == TokenKind::OpenParen {
+            // a parenthesised parameter list only starts a lambda if `->` follows its closing
+            // parenthesis; looking ahead avoids parsing every nested parenthesis twice
+            let mut depth = 0usize;
+            let mut i = 0usize;
+            loop {
+                match self.peek_token(i).tag() {
+                    TokenTag::OpenParen => depth += 1,
+                    TokenTag::CloseParen => {
+                        depth -= 1;
+                        if depth == 0 {
+                            break;
+                        }
+                    }
+                    TokenTag::Eof => return Ok(None),
+                    _ => {}
+                }
+                i += 1;
+            }
+            if self.peek_token(i + 1).tag() != TokenTag::RArrow {
+                return Ok(None);
+            }
             self.expect_token(TokenTag::OpenParen);
             match self.parse_delimited_list(
                 TokenTag::CloseParen,
